@@ -2,6 +2,8 @@ package main
 
 func controlsC13() []Control {
 	return []Control{
+		{Name: "error event reports a nil error to the host", Expect: "R3", Mutate: replaceIn("(*tableEngine).emitErrorEvent", "te.onTableErrorUpdated(te.table, err)", "te.onTableErrorUpdated(te.table, nil)", 0)},
+		{Name: "backend asked to check on a nil state", Expect: "R2", Mutate: replaceIn("(*game).Check", "g.backend.Check(g.gs)", "g.backend.Check(nil)", 0)},
 		{Name: "failed bet also reported through the hand's error listener", Expect: "R1", Mutate: replaceIn("(*game).Bet", "\tgs, err := g.backend.Bet(g.gs, chips)\n\tif err != nil {\n", "\tgs, err := g.backend.Bet(g.gs, chips)\n\tif err != nil {\n\t\tg.onGameErrorUpdated(gs, err)\n", 0)},
 		{Name: "game.Check updates the state before testing the backend error", Expect: "R1", Mutate: replaceIn("(*game).Check", "gs, err := g.backend.Check(g.gs)\n", "gs, err := g.backend.Check(g.gs)\n\tg.updateGameState(gs)\n", 0)},
 		{Name: "NativeGameBackend.Fold passes the caller's state uncloned", Expect: "R5", Mutate: replaceIn("(*NativeGameBackend).Fold", "cloneGameState(gs)", "gs", 0)},
